@@ -43,8 +43,12 @@ Theorem C14_readat_moves_cursor_refuted : agree_b ten fl_ro [HReadAt 2 3; HRead 
 Proof. exact needs_no_readat. Qed.
 Theorem C14_seek_beyond_end_refuted : agree_b ten fl_ro [HSeek 20 0; HSeek 0 1] = false.
 Proof. exact needs_seek_bound. Qed.
-Theorem C14_append_refuted : agree_b ten fl_rwa [HWrite [(7, 0, 2)]; HSeek 0 0; HWrite [(8, 0, 1)]] = false.
-Proof. exact needs_no_append. Qed.
+(* O_APPEND handles used to be a fourth restriction (repaired in /repo); the former witnesses now agree *)
+Theorem C14_append_agrees :
+  agree_b ten fl_rwa [HWrite [(7, 0, 2)]; HSeek 0 0; HWrite [(8, 0, 1)]] = true /\
+  agree_b ten fl_rwa [HWrite []; HRead 4] = true /\
+  agree_b ten fl_rwa [HRead 3; HTruncate 5; HRead 2; HWrite [(7, 0, 2)]; HSeek 0 1] = true.
+Proof. exact append_agrees. Qed.
 
 Print Assumptions C14_handle_refines_bytearray.
 Print Assumptions C14_handle_refines_bytearray_wide.
